@@ -25,6 +25,7 @@ ASSUMPTIONS = [
 
 def floors(tier):
     return {'expec_blocks': 12, 'trans_moments': 8, 'sums': 2,
+            'history_pairs': 3,
             'nonzero_reference_points': 15}
 
 
@@ -41,7 +42,8 @@ def gen_cases(tier, seed):
                                                     (3, 2)]))),
                  mseed=r.randrange(1 << 30))
         c.update(kw)
-        c['id'] = (f"C05-{tier[0]}{seed}-{len(cases):03d}-{variant}-{kind}-"
+        c['id'] = (f"C05-{tier[0]}{seed}-{len(cases):03d}-{variant}-{kind}"
+                   f"{'' if kw.get('first_gs', None) is None else int(kw['first_gs'])}-"
                    f"{block.replace(',', '_')}-{order}-k{c['n_particles']}"
                    f"{'' if c['subtract_gs'] else '-nogs'}")
         cases.append(c)
@@ -67,6 +69,16 @@ def gen_cases(tier, seed):
         s1, s2 = spaces_upto(variant, 2)
         add(variant, 'expec', f'{s1},{s1}', 1, cost=40)
         add(variant, 'tm', s1, 1, cost=40)
+    # mixed left/right variants, default operator string of the chosen side
+    add('pp', 'tm_mixed', 'h', 1, cost=60)
+    add('pp', 'tm_mixed', 'h', 0, cost=30)
+    add('pp', 'tm_mixed', 'phh', 1, cost=100)
+    # call histories on ONE Properties instance: both subtract_gs values, in
+    # both orders (cached members must not leak between them)
+    for variant, blk, o in [('pp', 'ph,ph', 2), ('ip', 'h,h', 2),
+                            ('ea', 'p,pph', 1), ('pp', 'ph,ph', 0)]:
+        add(variant, 'expec_hist', blk, o, first_gs=True, cost=80)
+        add(variant, 'expec_hist', blk, o, first_gs=False, cost=80)
     if tier == 'thorough':
         for variant in ('pp', 'ip', 'ea', 'dip', 'dea'):
             s1, s2 = spaces_upto(variant, 2)
@@ -83,8 +95,7 @@ def gen_cases(tier, seed):
                 add(variant, 'tm', s1, 2, cost=200)
         add('pp', 'expec', 'ph,ph', 3, cost=900, timeout=5000)
         add('ip', 'expec', 'h,h', 3, cost=600, timeout=5000)
-        add('pp', 'tm_mixed', 'h', 1, cost=60)
-        add('pp', 'tm_mixed', 'phh', 1, cost=100)
+        add('pp', 'tm_mixed', 'phh', 2, cost=300)
         add('pp', 'tm_nondefault', 'ph', 1, cost=100)
     return cases
 
@@ -180,6 +191,25 @@ def run_case(case, res):
         exp = explicit_expec(I, ref, ex[('d', kp, kp)], kp, spI, spJ, order, sgs)
         finish(f'expec_block_contribution({order}, {spI},{spJ}, {kp}, '
                f'subtract_gs={sgs})', val, exp, _nterms(expr), 'expec_blocks')
+        return
+    if kind == 'expec_hist':
+        spI, spJ = case['block'].split(',')
+        m, ex = model_with([(kp, kp)])
+        evm = tm.Evaluator(m)
+        flags = [True, False] if case['first_gs'] else [False, True]
+        for n_call, flag in enumerate(flags):
+            expr = lib_call(prop.expec_block_contribution, order,
+                            f'{spI},{spJ}', kp, flag)
+            val = int(evm.value(expr, []))
+            exp = explicit_expec(I, ref, ex[('d', kp, kp)], kp, spI, spJ, order,
+                                 flag)
+            finish(f'expec_block_contribution({order}, {spI},{spJ}, {kp}, '
+                   f'subtract_gs={flag}) [call {n_call + 1} on one Properties '
+                   f'instance, flags {flags}]', val, exp, _nterms(expr),
+                   'expec_blocks')
+            if res.status == 'violation':
+                return
+        res.count('history_pairs')
         return
     if kind == 'tm':
         space = case['block']
